@@ -129,12 +129,13 @@ SLIDE_POOL = [
 ]
 
 
-def sliding_families(P, G, tier, default_flags=False, step=1, **kw):
+def sliding_families(P, G, tier, default_flags=False, step=1, pool=None, **kw):
     """a short symbolic window slid over every offset of a few realistic multi-header messages (all options of the message
     kind symbolic unless default_flags): every byte value at every position of a long message, in its real context"""
     J = []
     w = T(tier, 3, 4); bud = T(tier, 60, 300)
     for nm, kind, msg, _ in SLIDE_POOL:
+        if pool and nm not in pool: continue
         fl = F0 if default_flags else ([f for f in flags(multi_sp_req='sym', sp_before_first='sym', ignore_req='sym')] if kind == 'req'
                                        else [f for f in flags(sp_after_name='sym', obs_fold='sym', multi_sp_resp='sym', sp_before_first='sym', ignore_resp='sym')])
         for off in range(0, len(msg) - w + 1, step):
